@@ -94,4 +94,53 @@ theorem le_maxR (l : List Rat) (x : Rat) (hx : x ∈ l) : x ≤ maxR l := by
   unfold maxR
   exact (maxR_ge_aux l _).2 x hx
 
+
+theorem sortR_ne_nil (ds : List Rat) (hne : ds ≠ []) : sortR ds ≠ [] := by
+  intro h; apply hne; have := sortR_length ds; rw [h] at this
+  exact List.eq_nil_of_length_eq_zero this.symm
+
+theorem C02_quantile_mono' (ds : List Rat) (hne : ds ≠ []) {q₁ q₂ : Rat} (h0 : 0 ≤ q₁)
+    (h12 : q₁ ≤ q₂) : quantile ds q₁ ≤ quantile ds q₂ := by
+  unfold quantile
+  exact quantileSorted_mono _ (sortR_pairwise ds) (sortR_ne_nil ds hne) h0 h12
+
+/-- for negative levels the virtual index floors to 0 (`Nat.floor`), the interpolation factor is
+negative and the node difference non-negative: still monotone -/
+theorem quantile_mono_any (ds : List Rat) (hne : ds ≠ []) {q₁ q₂ : Rat} (h12 : q₁ ≤ q₂) :
+    quantile ds q₁ ≤ quantile ds q₂ := by
+  by_cases h0 : 0 ≤ q₁
+  · exact C02_quantile_mono' ds hne h0 h12
+  · have hq1 : q₁ < 0 := not_le.1 h0
+    have hn : (0 : Rat) ≤ ((sortR ds).length : Rat) - 1 := by
+      have : 1 ≤ (sortR ds).length := List.length_pos_iff.2 (sortR_ne_nil ds hne)
+      have : (1 : Rat) ≤ ((sortR ds).length : Rat) := by exact_mod_cast this
+      linarith
+    have hm := nodes_mono (sortR ds) (sortR_pairwise ds)
+    -- value at a negative level is below the value at level 0
+    have hneg : ∀ q : Rat, q ≤ 0 → quantile ds q ≤ quantile ds 0 := by
+      intro q hq
+      unfold quantile
+      rw [quantileSorted_eq, quantileSorted_eq]
+      have hp : q * (((sortR ds).length : Rat) - 1) ≤ 0 := mul_nonpos_of_nonpos_of_nonneg hq hn
+      unfold lerpAt
+      have hf : ⌊q * (((sortR ds).length : Rat) - 1)⌋₊ = 0 := Nat.floor_of_nonpos hp
+      rw [hf]
+      simp only [zero_mul, Nat.floor_zero, Nat.cast_zero, sub_zero, zero_add]
+      have hd : 0 ≤ nodes (sortR ds) 1 - nodes (sortR ds) 0 := sub_nonneg.2 (hm (Nat.zero_le 1))
+      nlinarith
+    by_cases h2 : 0 ≤ q₂
+    · exact le_trans (hneg q₁ hq1.le) (C02_quantile_mono' ds hne (le_refl 0) h2)
+    · have hq2 : q₂ < 0 := not_le.1 h2
+      unfold quantile
+      rw [quantileSorted_eq, quantileSorted_eq]
+      unfold lerpAt
+      have hp1 : q₁ * (((sortR ds).length : Rat) - 1) ≤ 0 := mul_nonpos_of_nonpos_of_nonneg hq1.le hn
+      have hp2 : q₂ * (((sortR ds).length : Rat) - 1) ≤ 0 := mul_nonpos_of_nonpos_of_nonneg hq2.le hn
+      rw [Nat.floor_of_nonpos hp1, Nat.floor_of_nonpos hp2]
+      simp only [Nat.cast_zero, sub_zero, zero_add]
+      have hd : 0 ≤ nodes (sortR ds) 1 - nodes (sortR ds) 0 := sub_nonneg.2 (hm (Nat.zero_le 1))
+      have : q₁ * (((sortR ds).length : Rat) - 1) ≤ q₂ * (((sortR ds).length : Rat) - 1) :=
+        mul_le_mul_of_nonneg_right h12 hn
+      nlinarith
+
 end Skg
